@@ -135,14 +135,18 @@ static void checkNewChunk(char* ptr) {
 
 alignas(Pool) static char g_poolStorage[sizeof(Pool)];
 
-static void afterOp(Pool* pool) {
+// returns false if the history cannot be continued (lock word left set: the next operation would spin forever)
+static bool afterOp(Pool* pool) {
   vf_check(pool->totalChunkCapacity() == G.capacity,
            "totalChunkCapacity() == slabs obtained x chunks per slab");
-#if VF_TS
-  vf_check(pool->backingAllocLock_.load(std::memory_order_relaxed) == 0,
-           "the spin-lock word is released when an operation returns");
-#endif
   vf_check(G.deallocCalls == 0, "no slab is released before destruction");
+#if VF_TS
+  bool unlocked = pool->backingAllocLock_.load(std::memory_order_relaxed) == 0;
+  vf_check(unlocked, "the spin-lock word is released when an operation returns");
+  return unlocked;
+#else
+  return true;
+#endif
 }
 
 // end of a history: destroy the pool, then every slab must have been released exactly once
@@ -172,8 +176,7 @@ struct History {
       G.live[G.nchunk] = true;
       G.nchunk++;
       G.nlive++;
-      afterOp(pool);
-      History<kLeft - 1>::run(pool);
+      if (afterOp(pool)) History<kLeft - 1>::run(pool);
     } else if (op == 1) {
       if (G.nlive == 0) {
         vf_assume(false);  // nothing to dealloc: not a history
@@ -184,16 +187,14 @@ struct History {
       pool->dealloc(G.chunk[idx]);
       G.live[idx] = false;
       G.nlive--;
-      afterOp(pool);
-      History<kLeft - 1>::run(pool);
+      if (afterOp(pool)) History<kLeft - 1>::run(pool);
     } else if (op == 2) {
       pool->clear();
       // "Effectively dealloc all previously allocated chunks": none of them is live any more and
       // (documented precondition) none of them is passed to dealloc() afterwards.
       for (uint32_t j = 0; j < VF_OPS; ++j) G.live[j] = false;
       G.nlive = 0;
-      afterOp(pool);
-      History<kLeft - 1>::run(pool);
+      if (afterOp(pool)) History<kLeft - 1>::run(pool);
     } else {
       finish(pool);  // shorter history
     }
